@@ -37,12 +37,52 @@ def frames(tb: str):
     return [(m.group(1), int(m.group(2)), m.group(3)) for m in _FRAME.finditer(tb or "")]
 
 
+GENERIC_FILES = {"span.py", "diagnostic.py", "error.py", "ast_util.py"}
+
+
 def repo_frame(tb: str) -> str:
-    best = "?"
+    """Crash site: innermost guppylang frame, skipping generic helpers (span conversion,
+    diagnostics plumbing, visitor dispatch) so that distinct callers get distinct keys."""
+    best = generic = "?"
     for path, _line, fn in frames(tb):
         if "/guppylang_internals/" in path or "/guppylang/" in path:
-            best = f"{path.rsplit('/', 1)[-1]}:{fn}"
-    return best
+            base = path.rsplit("/", 1)[-1]
+            if base in GENERIC_FILES:
+                generic = f"{base}:{fn}"
+            else:
+                best = f"{base}:{fn}"
+                generic = "?"
+    if best == "?":
+        return generic
+    return best if generic == "?" else f"{best}>{generic}"
+
+
+def recursion_site(src: str, entry: str, exp: bool) -> str:
+    """Re-run check() on a fresh load and name the function that dominates the
+    innermost frames of the RecursionError traceback."""
+    import traceback
+    from checks.c01 import set_experimental
+    from vlib import gload
+    set_experimental(exp)
+    try:
+        mod = gload.load(gload.PRELUDE + src)
+    except BaseException:  # noqa: BLE001
+        return "?"
+    try:
+        mod.__dict__[entry].check()
+    except RecursionError as e:
+        cnt: dict = {}
+        for fr in traceback.extract_tb(e.__traceback__)[-60:]:
+            if "/guppylang" in fr.filename:
+                k = f"{fr.filename.rsplit('/', 1)[-1]}:{fr.name}"
+                cnt[k] = cnt.get(k, 0) + 1
+        if cnt:
+            return sorted(cnt.items(), key=lambda kv: (-kv[1], kv[0]))[0][0]
+    except BaseException:  # noqa: BLE001
+        pass
+    finally:
+        gload.unload(mod)
+    return "?"
 
 
 # ----------------------------------------------------------------------- mutation
@@ -761,7 +801,7 @@ def m_shadow_param(main_src):
 
 
 SIG_FORMS = ["default", "vararg", "kwarg", "kwonly", "posonly", "no-ann", "no-ret", "self", "builtin-name",
-             "gate-name", "underscore", "dup-type-param", "async", "extra-decorator", "ret-none", "ret-str"]
+             "gate-name", "underscore", "dup-type-param", "async", "ret-none", "ret-str"]
 
 
 def m_signature(main_src):
@@ -803,8 +843,6 @@ def m_signature(main_src):
             fn.type_params = list(getattr(fn, "type_params", [])) + [ast.TypeVar("T2", None), ast.TypeVar("n2", _expr("nat"))]
         elif form == "async":
             tree.body[0] = ast.AsyncFunctionDef(**{f: getattr(fn, f) for f in fn._fields})
-        elif form == "extra-decorator":
-            fn.decorator_list.append(_expr("staticmethod"))
         elif form == "ret-none":
             fn.returns = _expr("None")
         elif form == "ret-str":
@@ -967,7 +1005,11 @@ def run_one(item) -> dict:
                 rec["what"] = o.exc[:200]
             else:
                 rec["status"] = "crash"
-                rec["key"] = f"crash:{etype}:{op.split(':')[0]}:{repo_frame(o.tb)}"
+                site = repo_frame(o.tb)
+                if etype == "RecursionError":
+                    _arm(0)
+                    site = recursion_site(src, entry, exp)
+                rec["key"] = f"crash:{etype}:{op.split(':')[0]}:{site}"
                 rec["what"] = f"[{o.stage}] {o.exc[:200]}"
     except _Hang:
         rec["status"] = "hang"
